@@ -161,7 +161,7 @@ def r2(ctx, fs):
     pushes = {}
     for p in enum_paths(n['slots']['body']):
         conds = tuple((canon(c[1], env, subst=False), c[2]) for c in p.conds if c[0] == 'if')
-        ps = [canon(s, env, subst=False) for s in p.stmts]
+        ps = [canon(s, env, subst=False) for s in p.live(env)]
         pushes[conds] = ps
     pos = ('call', 'smt::is_positive', b[1])
     neg = ('call', 'smt::is_negative', b[1])
@@ -208,7 +208,7 @@ def r2(ctx, fs):
     for p in enum_paths(f.body):
         if p.end == 'return' and canon(p.endnode['c'][0], env) == 'false':
             conds = [(canon(c[1], env, subst=False), c[2]) for c in p.conds if c[0] == 'if']
-            ps = [canon(s, env, subst=False) for s in p.stmts if not s.get('as') and s.get('k') != 'ReturnStmt']
+            ps = [canon(s, env, subst=False) for s in p.live(env) if s.get('k') != 'ReturnStmt']
             if conds and conds[-1] == (('<', ('mcall', LRA + 'ub', 'this', 'x_i'), 'val'), True):
                 ok = sorted(ps, key=repr) == sorted([('mcall', 'std::vector<smt::lit>::push_back', 'smt::theory::cnfl', ('!', 'p')), pb('ub', 'x_i')], key=repr)
     ctx.instance(rid, [f.id, 'conflict'], {'conflict_is_{!p, !reason(ub)}': ok})
@@ -231,7 +231,7 @@ def r2(ctx, fs):
     got = {}
     for p in enum_paths(loop['slots']['body']):
         conds = tuple((canon(c[1], env, subst=False), c[2]) for c in p.conds if c[0] == 'if')
-        got[conds] = (sorted((show(canon(s, env, subst=False)) for s in p.stmts), key=repr), p.end)
+        got[conds] = (sorted((show(canon(s, env, subst=False)) for s in p.live(env)), key=repr), p.end)
     TH = 'smt::row::th'
     posc, negc = ('call', 'smt::is_positive', b[1]), ('call', 'smt::is_negative', b[1])
     inf_lb = ('call', 'smt::is_negative_infinite', ('mcall', LRA + 'lb', TH, b[0]))
